@@ -1175,6 +1175,10 @@ impl<'a> ParseState<'a, &'a str> {
             Term::ImageExtension(index, vec) | Term::ImageIntension(index, vec) => {
                 // 计算词项序列（提取占位符索引）
                 let i = self.parse_terms_with_image(&mut terms)?;
+                // ! 除占位符外，像的组分不能为空（如`(/, _)`）
+                if terms.is_empty() {
+                    return self.err("像的内容（除占位符外）不能为空");
+                }
                 // 更新索引
                 *index = i;
                 // 追加词项
